@@ -674,8 +674,9 @@ def callMethod (ev : Ev) (C : Ctx) (bad : Err) (r : Obj) (f : Fn) (args : List E
       if strs.length != ns.length then .error bad
       else
         let n := strs.length
-        -- `islice(sequence, len(args) + 1)` reaches the end of a source that raises
-        match (if xs.length < n + 1 then e else none) with
+        -- `islice(sequence, len(args) + 1)` reaches the end of a source that raises; without names
+        -- `chain(lst, sequence)` consumes the whole source
+        match (if n = 0 || xs.length < n + 1 then e else none) with
         | some er => .error er
         | none =>
         if n = 0 then pure (.ctx ({ vars := bindNamed [] (bindPos 1 xs) } :: C))
